@@ -713,6 +713,57 @@ P("len_cumsum_plus_filtered", lambda t: (t.df[["u", "f"]].cumsum() + t.df[["u", 
 P("frame_plus_filtered_frame", lambda t: t.df[["u", "f"]] + t.df[["u", "f"]][t.df.u > 5], needs_range=True)
 
 
+# ---- third seeding round
+# a filter on a column that both join inputs have, with one empty suffix: the unsuffixed name belongs to ONE input
+for _how in ("left", "right", "inner"):
+    for _sfx in (("_l", ""), ("", "_r")):
+        P(f"jp_sfx_{_how}_{_sfx[0] or 'none'}{_sfx[1] or 'none'}", lambda t, how=_how, sfx=_sfx: (lambda m: m[m.b > 2])(t.df[["a", "b", "u"]].merge(t.df2[["a", "b", "w"]], on="a", how=how, suffixes=sfx)), order_free=True, index_free=True)
+P("value_counts_keepna_tree", lambda t: t.df.b.value_counts(dropna=False, split_out=1, split_every=2) if t.lazy else t.df.b.value_counts(dropna=False), order_free=True)
+P("value_counts_tree", lambda t: t.df.a.value_counts(split_out=1, split_every=2) if t.lazy else t.df.a.value_counts(), order_free=True)
+# narrowing casts change values: 16777216 + odd is not representable in float32, 2**31 + k wraps in int32
+P("vc_astype_narrow_float32", lambda t: (lambda x: x[x.h >= 16777218.0])(t.df[["a", "u"]].assign(h=t.df.u + 16777216.0).astype({"h": "float32"})), tags={"valuechange"})
+P("vc_astype_narrow_float32_eq", lambda t: (lambda x: x[x.h == 16777220.0])(t.df[["a", "u"]].assign(h=t.df.u + 16777216.0).astype({"h": "float32"})), tags={"valuechange"})
+P("concat_interleave_proj", lambda t: t.dd.concat([t.df, t.df4], interleave_partitions=True)[["u", "a"]] if t.lazy else t.dd.concat([t.df, t.df4]).sort_index(kind="stable")[["u", "a"]], needs_known=True, order_free=True)
+P("concat_interleave_proj_cumsum", lambda t: t.dd.concat([t.df, t.df4], interleave_partitions=True)[["u"]].u.cumsum() if t.lazy else t.dd.concat([t.df, t.df4]).sort_index(kind="stable")[["u"]].u.cumsum(), needs_known=True, needs_range=True)
+P("agg_multiindex_columns_select", lambda t: t.df.groupby("a").agg({"u": ["sum", "mean"], "f": ["max"]})[[("f", "max")]], order_free=True)
+P("agg_multiindex_columns_nlargest_select", lambda t: t.df.groupby("a").agg({"u": ["sum", "mean"], "f": ["max"]}).nlargest(2, ("u", "sum"))[[("f", "max")]], order_free=True)
+P("agg_multiindex_columns_dropna_select", lambda t: t.df.groupby("a").agg({"u": ["sum", "mean"], "f": ["max"]}).dropna(subset=[("u", "mean")])[[("f", "max")]], order_free=True)
+P("parts_strided_series", lambda t: t.df.partitions[[0, 2]].u if t.lazy else t.df.u, dask_only=True, tags={"parts"}, only={"C01", "C06", "C07", "C09", "C14"})
+P("parts_strided_proj_elemwise", lambda t: t.df.partitions[[0, 2]][["u", "a"]] + 1 if t.lazy else t.df[["u", "a"]], dask_only=True, tags={"parts"}, only={"C01", "C06", "C07", "C09", "C14"})
+
+
+def _scaled_with_partition_info(p, partition_info=None):
+    out = p.u * 2.0
+    out.name = "x"
+    return out
+
+
+def _add_frame_column(s, other):
+    return s + other["w"].iloc[0]
+
+
+P("enforce_map_partitions_partition_info", lambda t: t.df.map_partitions(_scaled_with_partition_info, meta=("scaled", "f8")) if t.lazy else _scaled_with_partition_info(t.df).rename("scaled"), tags={"enforce_meta"})
+P("set_index_presorted_keep_column", lambda t: t.df[["g", "u", "a"]].set_index("g", drop=False) if t.lazy else t.df[["g", "u", "a"]].set_index("g", drop=False), tags={"sort"})
+P("set_index_presorted_keep_column_select", lambda t: t.df[["g", "u", "a"]].set_index("g", drop=False)["g"], tags={"sort"})
+P("series_map_partitions_single_partition_frame", lambda t: t.df.u.map_partitions(_add_frame_column, t.df2.repartition(npartitions=1), meta=("u", "i8")) * 2 if t.lazy else (t.df.u + t.df2["w"].iloc[0]) * 2)
+# deep chains of shared sub-expressions: the number of rewrite steps must stay polynomial
+
+
+def assign_chain(x, depth):
+    for k in range(depth):
+        x = x.assign(**{f"c{k}": x.u + (x[f"c{k-1}"] if k else x.a)})
+    return x[[f"c{depth - 1}", "u"]]
+
+
+def mask_chain(x, rounds):
+    m = x.u > 1
+    for k in range(rounds):
+        m = (m & (x.u > k)) | (m & (x.a >= 0))
+    return m
+
+
+
+
 def program_names(tags_exclude=()):
     return [n for n, p in PROGRAMS.items() if not (p.tags & set(tags_exclude))]
 
